@@ -21,7 +21,7 @@ if os.path.exists(log):
         if l.startswith("RESULT"):
             res = l.strip()
 meta = {
-    "seed": sid, "property": prop, "base_commit": "4c29a34 (pinned snapshot; patch_current.diff, when present, is the same change rebased onto the fix commits)",
+    "seed": sid, "property": prop, "base_commit": os.environ.get("SEED_BASE", "4c29a34") + " (4c29a34 = pinned snapshot, 7c5b5f0 = pinned snapshot plus the fix commits; patch_current.diff, when present, is the same change rebased onto the current tree)",
     "what_it_breaks": open(src + "/NOTES.md").read().split("\n\n")[1][:600] if os.path.exists(src + "/NOTES.md") else "",
     "needs_to_manifest": needs,
     "produced_by": "independent sub-agent given only the property text and a scratch worktree",
